@@ -42,6 +42,11 @@ namespace verif
         std::vector<StreamOp> ops;
         size_t stream_size = 0; // 0: default
         bool boundary      = false; // body crosses a buffer doubling boundary / chunk at a hex-length boundary
+        // file-served response: the body is written to a scratch file and sent with Http::serveFile
+        // (always status 200; content type from the argument or from the extension)
+        bool file          = false;
+        std::string file_ext;
+        bool file_ct_arg   = false; // pass text/css as the content-type argument
 
         std::string describe() const
         {
@@ -58,6 +63,8 @@ namespace verif
                                                             : o.kind == StreamOp::Literal ? " <<\"" + printable(o.data, 12) + "\""
                                                                                           : " write(" + std::to_string(o.data.size()) + ")";
             }
+            else if (file)
+                s += " serveFile(" + std::to_string(body.size()) + " bytes, ext \"" + file_ext + "\"" + (file_ct_arg ? ", content type argument" : "") + ")";
             else
                 s += " body(" + std::to_string(body.size()) + ")" + (send_string ? " via string" : "");
             return s;
@@ -198,7 +205,7 @@ namespace verif
             return s;
         }
 
-        inline RespSpec make(Choices& c, bool allow_stream, size_t max_body)
+        inline RespSpec make(Choices& c, bool allow_stream, size_t max_body, bool allow_file = false)
         {
             RespSpec r;
             {
@@ -247,6 +254,15 @@ namespace verif
                 n             = std::min(n, max_body);
                 r.body        = pattern(n, c.byte());
                 r.send_string = c.coin(100);
+                // file-served variant: derived from what is already decoded (no further choice is consumed,
+                // so inputs saved before this existed decode as before in every other respect)
+                if (allow_file && r.send_string && n % 3 == 0)
+                {
+                    static const char* exts[] = { "", ".txt", ".png", ".bin", ".weird", ".jpeg" };
+                    r.file        = true;
+                    r.file_ext    = exts[(n / 3) % 6];
+                    r.file_ct_arg = (n / 18) % 3 == 0;
+                }
             }
             else
             {
@@ -308,7 +324,25 @@ namespace verif
                     w.headers().add(h.h);
                 for (auto& ck : r.cookies)
                     w.cookies().add(ck.cookie);
-                if (!r.streamed)
+                if (r.file)
+                {
+                    // scratch file under the run's work directory (VERIF_WORKDIR), one per process, replaced each time
+                    static std::string last;
+                    if (!last.empty())
+                        ::unlink(last.c_str());
+                    const char* dir = getenv("VERIF_WORKDIR");
+                    static unsigned long seq = 0;
+                    last = std::string(dir ? dir : "/tmp") + "/verif-serve-" + std::to_string(getpid()) + "-" + std::to_string(++seq) + r.file_ext;
+                    FILE* f = fopen(last.c_str(), "wb");
+                    if (!f)
+                        throw std::runtime_error("harness: cannot create " + last);
+                    fwrite(r.body.data(), 1, r.body.size(), f);
+                    fclose(f);
+                    auto p = r.file_ct_arg ? serveFile(w, last, Pistache::Http::Mime::MediaType(Pistache::Http::Mime::Type::Text, Pistache::Http::Mime::Subtype::Css)) : serveFile(w, last);
+                    a.response_size = w.getResponseSize();
+                    p.then([on_settled](ssize_t n) { on_settled(true, n); }, [on_settled](std::exception_ptr) { on_settled(false, 0); });
+                }
+                else if (!r.streamed)
                 {
                     auto p = r.send_string ? w.send(r.code, r.body) : w.send(r.code, r.body.data(), r.body.size());
                     a.response_size = w.getResponseSize();
